@@ -1,5 +1,6 @@
 import SpVerif.Proofs.Factory
 import SpVerif.Props.C06Fixed
+import SpVerif.Props.C06Var
 import SpVerif.Props.C07
 /-!
 # C12 — the PDU factory returns the right PDU kind, equal to what was packed
@@ -13,8 +14,14 @@ code in the first octet of the data field, i.e. at offset `4 + 2·idw + seqw` wh
 `seqw − 1` are the two 3-bit width codes of the fourth octet — 16 positions for the 16 width
 combinations (`C12_directive_octet_position`).
 
-Kinds are handled as a table (`WFPdu`, `Spec.octets`, `refusesTrailing`): one line per kind.
-STAGE 1: File Data, ACK, NAK, Prompt, Keep Alive (EOF, Finished, Metadata: models not merged yet).
+Kinds are handled as a table (`WFPdu`, `Spec.octets`, `refusesTrailing`, `headerOf`, `norm`, `EqOk`):
+one line per kind, all eight kinds.
+
+Two clauses need a word. *Identical*: for seven kinds the object the factory returns is the packed
+object itself; a Metadata PDU comes back with its options as generic TLVs of the same types and
+values (`[]` as `None`) — `norm` — which compares equal under the library's `==` both ways and
+re-packs to the same octets (C06). *Equal*: `==` of an EOF / Finished PDU compares the fault-location
+entity IDs numerically and raises `ValueError` for an ID width other than 1, 2, 4, 8 (`EqOk`).
 -/
 namespace SpVerif.Props.C12
 open SpVerif SpVerif.CfdpHeader SpVerif.FileDirective SpVerif.Factory
@@ -31,6 +38,9 @@ def WFPdu : AnyPdu → Prop
   | .nak x => C06Fixed.WFNak x
   | .prompt x => C06Fixed.WFPrompt x
   | .keepAlive x => C06Fixed.WFKeepAlive x
+  | .eof x => C06Var.WFEof x
+  | .finished x => C06Var.WFFin x
+  | .metadata x => C06Var.WFMd x
 
 instance (p : AnyPdu) : Decidable (WFPdu p) := by
   cases p <;> (unfold WFPdu; infer_instance)
@@ -42,6 +52,9 @@ def Spec.octets : AnyPdu → Bytes
   | .nak x => C06Fixed.Spec.nak x
   | .prompt x => C06Fixed.Spec.prompt x
   | .keepAlive x => C06Fixed.Spec.keepAlive x
+  | .eof x => C06Var.Spec.eof x
+  | .finished x => C06Var.Spec.finished x
+  | .metadata x => C06Var.Spec.metadata x
 
 /-- kinds whose decoder refuses octets after the declared PDU (documented `ValueError`, by design:
     NAK); the others decode the PDU alone — the two behaviours the statement allows (C09 clause) -/
@@ -56,6 +69,25 @@ def headerOf : AnyPdu → PduHeader
   | .nak x => x.fd.header
   | .prompt x => x.fd.header
   | .keepAlive x => x.fd.header
+  | .eof x => x.fd.header
+  | .finished x => x.fd.header
+  | .metadata x => x.fd.header
+
+/-- what a decoder hands back for a packed object: the object itself, except that Metadata options
+    come back as generic TLVs (C06 `normMd`) -/
+def norm : AnyPdu → AnyPdu
+  | .metadata x => .metadata (C06Var.normMd x)
+  | p => p
+
+/-- PDUs the library's `==` can compare: a fault location (EOF, Finished) needs an entity ID of a
+    width `UnsignedByteField` supports -/
+def EqOk : AnyPdu → Prop
+  | .eof x => C06Var.EqWidth x.faultLoc
+  | .finished x => C06Var.EqWidth x.faultLoc
+  | _ => True
+
+instance (p : AnyPdu) : Decidable (EqOk p) := by
+  cases p <;> (unfold EqOk; infer_instance)
 
 /-! ## position of the directive octet -/
 
@@ -81,13 +113,30 @@ private theorem directive_facts (d : Bytes) (fd : FileDirective) (q : Bytes)
   refine ⟨h1, ?_, h3, h4⟩
   rw [isFileDirective_eq, h1]; rfl
 
-private theorem decodeAs_ok {k : Kind} {f : Bytes → Py AnyPdu} (hk : decoderOf k = some f) {d : Bytes}
-    {p : AnyPdu} (hf : f d = .ok p) : decodeAs k d = .ok (some p) := by
-  simp only [decodeAs, hk, hf]; rfl
+/-- the prelude of every directive decoder on a laid-out PDU (any parameters), followed by anything -/
+private theorem pdu_prelude (fd : FileDirective) (P rest : Bytes) (wf : C05.WF fd.header) (hc : fd.code < 256)
+    (hl : fd.header.dataFieldLen = (C06Fixed.Spec.pdu fd P).length - fd.header.headerLen) :
+    prelude (C06Fixed.Spec.pdu fd P ++ rest) = .ok (fd, specOctets fd ++ P) := by
+  have e : C06Fixed.Spec.pdu fd P = withCrc fd.header.conf.crcFlag (specOctets fd ++ P) := rfl
+  rw [e] at hl ⊢
+  refine (prelude_spec fd wf hc P rest ?_).1
+  have hs := specOctets_length fd wf
+  have hh : fd.headerLen = fd.header.headerLen + 1 := rfl
+  unfold withCrc at hl
+  by_cases hcf : fd.header.conf.crcFlag = 1
+  · simp only [hcf, ↓reduceIte, List.length_append, Crc.crcTrailer, Crc.be16, List.length_cons,
+      List.length_nil] at hl ⊢
+    omega
+  · simp only [hcf, ↓reduceIte, List.length_append] at hl ⊢
+    omega
 
-private theorem decodeAs_err {k : Kind} {f : Bytes → Py AnyPdu} (hk : decoderOf k = some f) {d : Bytes}
-    {e : Err} (hf : f d = .error e) : decodeAs k d = .error e := by
-  simp only [decodeAs, hk, hf]; rfl
+private theorem decodeAs_ok {k : Kind} {d : Bytes} {p : AnyPdu} (hf : decoderOf k d = .ok p) :
+    decodeAs k d = .ok (some p) := by
+  simp only [decodeAs, hf]; rfl
+
+private theorem decodeAs_err {k : Kind} {d : Bytes} {e : Err} (hf : decoderOf k d = .error e) :
+    decodeAs k d = .error e := by
+  simp only [decodeAs, hf]; rfl
 
 /-! ## dispatch, kind by kind (`C12_dispatch_<K>`) -/
 
@@ -120,7 +169,7 @@ theorem C12_dispatch_ack (x : Ack.Ack) (wf : C06Fixed.WFAck x) (rest : Bytes) :
   rw [hcode] at h3 h4
   refine ⟨?_, h1, h2, h3⟩
   rw [h4, (dispatch_table _).2.2.1]
-  exact decodeAs_ok rfl (by rw [hr]; rfl)
+  exact decodeAs_ok (show _ <$> _ = _ by rw [hr]; rfl)
 
 /-- **Prompt**, alone or followed by any further octets -/
 theorem C12_dispatch_prompt (x : Prompt.Prompt) (wf : C06Fixed.WFPrompt x) (rest : Bytes) :
@@ -135,7 +184,7 @@ theorem C12_dispatch_prompt (x : Prompt.Prompt) (wf : C06Fixed.WFPrompt x) (rest
   rw [hcode] at h3 h4
   refine ⟨?_, h1, h2, h3⟩
   rw [h4, (dispatch_table _).2.2.2.2.2.1]
-  exact decodeAs_ok rfl (by rw [hr]; rfl)
+  exact decodeAs_ok (show _ <$> _ = _ by rw [hr]; rfl)
 
 /-- **Keep Alive**, alone or followed by any further octets -/
 theorem C12_dispatch_keepalive (x : KeepAlive.KeepAlive) (wf : C06Fixed.WFKeepAlive x) (rest : Bytes) :
@@ -150,7 +199,7 @@ theorem C12_dispatch_keepalive (x : KeepAlive.KeepAlive) (wf : C06Fixed.WFKeepAl
   rw [hcode] at h3 h4
   refine ⟨?_, h1, h2, h3⟩
   rw [h4, (dispatch_table _).2.2.2.2.2.2.1]
-  exact decodeAs_ok rfl (by rw [hr]; rfl)
+  exact decodeAs_ok (show _ <$> _ = _ by rw [hr]; rfl)
 
 /-- **NAK**: the PDU alone is returned identical; followed by further octets it is refused with the
     documented `ValueError` (never folded into segment requests), while the inspectors still report
@@ -176,9 +225,60 @@ theorem C12_dispatch_nak (x : Nak.Nak) (wf : C06Fixed.WFNak x) (rest : Bytes) :
   by_cases hrest : rest = []
   · subst hrest
     rw [if_pos rfl, List.append_nil]
-    exact decodeAs_ok rfl (by rw [hr]; rfl)
+    exact decodeAs_ok (show _ <$> _ = _ by rw [hr]; rfl)
   · rw [if_neg hrest]
-    exact decodeAs_err rfl (by rw [C06Fixed.C06_nak_trailing_refused x wf rest hrest]; rfl)
+    exact decodeAs_err (show _ <$> _ = _ by rw [C06Fixed.C06_nak_trailing_refused x wf rest hrest]; rfl)
+
+/-- **EOF**, alone or followed by any further octets (neither the CRC trailer nor trailing octets
+    are read as a fault location) -/
+theorem C12_dispatch_eof (x : Eof.Eof) (wf : C06Var.WFEof x) (rest : Bytes) :
+    fromRaw (C06Var.Spec.eof x ++ rest) = .ok (some (.eof x)) ∧
+    pduType (C06Var.Spec.eof x ++ rest) = .ok 0 ∧
+    isFileDirective (C06Var.Spec.eof x ++ rest) = .ok true ∧
+    pduDirectiveType (C06Var.Spec.eof x ++ rest) = .ok (some 4) := by
+  have hr := C06Var.C06_eof_roundtrip x wf rest
+  obtain ⟨hw, hty, _, hcode, _⟩ := wf.2.2.2.2.2
+  have hp : prelude (C06Var.Spec.eof x ++ rest) = _ :=
+    pdu_prelude x.fd (C06Var.Spec.eofParams x) rest hw (by omega) (C06Var.C06_eof_len x wf).2.1
+  obtain ⟨h1, h2, h3, h4⟩ := directive_facts _ _ _ hp hty
+  rw [hcode] at h3 h4
+  refine ⟨?_, h1, h2, h3⟩
+  rw [h4, (dispatch_table _).1]
+  exact decodeAs_ok (show _ <$> _ = _ by rw [hr]; rfl)
+
+/-- **Finished**, alone or followed by any further octets -/
+theorem C12_dispatch_finished (x : Finished.Finished) (wf : C06Var.WFFin x) (rest : Bytes) :
+    fromRaw (C06Var.Spec.finished x ++ rest) = .ok (some (.finished x)) ∧
+    pduType (C06Var.Spec.finished x ++ rest) = .ok 0 ∧
+    isFileDirective (C06Var.Spec.finished x ++ rest) = .ok true ∧
+    pduDirectiveType (C06Var.Spec.finished x ++ rest) = .ok (some 5) := by
+  have hr := C06Var.C06_finished_roundtrip x wf rest
+  obtain ⟨hw, hty, _, hcode, _⟩ := wf.2.2.2.2.2.2.2
+  have hp : prelude (C06Var.Spec.finished x ++ rest) = _ :=
+    pdu_prelude x.fd (C06Var.Spec.finParams x) rest hw (by omega) (C06Var.C06_finished_len x wf).2.1
+  obtain ⟨h1, h2, h3, h4⟩ := directive_facts _ _ _ hp hty
+  rw [hcode] at h3 h4
+  refine ⟨?_, h1, h2, h3⟩
+  rw [h4, (dispatch_table _).2.1]
+  exact decodeAs_ok (show _ <$> _ = _ by rw [hr]; rfl)
+
+/-- **Metadata**, alone or followed by any further octets: the PDU comes back with identical header,
+    closure flag, checksum type, file size and names, and its options as generic TLVs of the same
+    types and values (`normMd`, C06) -/
+theorem C12_dispatch_metadata (x : Metadata.Metadata) (wf : C06Var.WFMd x) (rest : Bytes) :
+    fromRaw (C06Var.Spec.metadata x ++ rest) = .ok (some (.metadata (C06Var.normMd x))) ∧
+    pduType (C06Var.Spec.metadata x ++ rest) = .ok 0 ∧
+    isFileDirective (C06Var.Spec.metadata x ++ rest) = .ok true ∧
+    pduDirectiveType (C06Var.Spec.metadata x ++ rest) = .ok (some 7) := by
+  have hr := C06Var.C06_metadata_roundtrip x wf rest
+  obtain ⟨hw, hty, _, hcode, _⟩ := wf.2.2.2.2.2
+  have hp : prelude (C06Var.Spec.metadata x ++ rest) = _ :=
+    pdu_prelude x.fd (C06Var.Spec.mdParams x) rest hw (by omega) (C06Var.C06_metadata_len x wf).2.1
+  obtain ⟨h1, h2, h3, h4⟩ := directive_facts _ _ _ hp hty
+  rw [hcode] at h3 h4
+  refine ⟨?_, h1, h2, h3⟩
+  rw [h4, (dispatch_table _).2.2.2.1]
+  exact decodeAs_ok (show _ <$> _ = _ by rw [hr]; rfl)
 
 /-! ## dispatch, uniformly over the kinds -/
 
@@ -190,51 +290,98 @@ theorem C12_pack_exact (p : AnyPdu) (wf : WFPdu p) : p.pack = .ok (Spec.octets p
   | nak x => exact C06Fixed.C06_nak_pack_exact x wf
   | prompt x => exact C06Fixed.C06_prompt_pack_exact x wf
   | keepAlive x => exact C06Fixed.C06_keepalive_pack_exact x wf
+  | eof x => exact C06Var.C06_eof_pack_exact x wf
+  | finished x => exact C06Var.C06_finished_pack_exact x wf
+  | metadata x => exact C06Var.C06_metadata_pack_exact x wf
 
-/-- `==` of the library holds between a PDU and itself (what the factory returns *is* the packed
-    object, see `C12_dispatch`) -/
-theorem C12_beq_refl (p : AnyPdu) : p.beq p = true := by
-  cases p <;>
-    simp [AnyPdu.beq, FileData.Pdu.beq, FileData.hdrBeq, Ack.Ack.beq, Nak.Nak.beq, Prompt.Prompt.beq,
-      KeepAlive.KeepAlive.beq, FileDirective.beq_refl]
+/-- **equal under the library's `==`, both ways**: the packed object and the object the factory
+    returns for it (`norm p`) compare equal (for EOF / Finished: when the fault-location entity ID has a
+    width the library can compare, otherwise `==` itself raises `ValueError`) -/
+theorem C12_beq (p : AnyPdu) (wf : WFPdu p) (hw : EqOk p) :
+    p.beq (norm p) = .ok true ∧ (norm p).beq p = .ok true := by
+  cases p with
+  | fileData x => simp [norm, AnyPdu.beq, FileData.Pdu.beq, FileData.hdrBeq, pure, Except.pure]
+  | ack x => simp [norm, AnyPdu.beq, Ack.Ack.beq, FileDirective.beq_refl, pure, Except.pure]
+  | nak x => simp [norm, AnyPdu.beq, Nak.Nak.beq, FileDirective.beq_refl, pure, Except.pure]
+  | prompt x => simp [norm, AnyPdu.beq, Prompt.Prompt.beq, FileDirective.beq_refl, pure, Except.pure]
+  | keepAlive x => simp [norm, AnyPdu.beq, KeepAlive.KeepAlive.beq, FileDirective.beq_refl, pure, Except.pure]
+  | eof x =>
+    obtain ⟨k', _, rfl, h1, h2, _⟩ := C06Var.C06_eof_eq_repack x wf hw []
+    exact ⟨h1, h2⟩
+  | finished x =>
+    obtain ⟨k', _, rfl, h1, h2, _⟩ := C06Var.C06_finished_eq_repack x wf hw []
+    exact ⟨h1, h2⟩
+  | metadata x => exact C06Var.C06_metadata_eq x wf
 
-/-- **the factory's generic decode returns an instance of exactly the packed kind, identical to the
+/-- the returned object is of the same class, is a valid PDU again and **re-packs to the same octets** -/
+theorem C12_norm (p : AnyPdu) (wf : WFPdu p) :
+    (norm p).kind = p.kind ∧ WFPdu (norm p) ∧ Spec.octets (norm p) = Spec.octets p ∧
+    (norm p).pack = p.pack ∧ norm (norm p) = norm p := by
+  cases p with
+  | metadata x =>
+    obtain ⟨h1, h2, h3, _⟩ := C06Var.C06_metadata_repack x wf []
+    refine ⟨rfl, h1, h2, h3, ?_⟩
+    have h4 := C06Var.C06_metadata_roundtrip x wf []
+    have h5 := C06Var.C06_metadata_roundtrip (C06Var.normMd x) h1 []
+    rw [h2, h4] at h5
+    simp only [norm]
+    exact congrArg AnyPdu.metadata (Except.ok.inj h5).symm
+  | fileData x => exact ⟨rfl, wf, rfl, rfl, rfl⟩
+  | ack x => exact ⟨rfl, wf, rfl, rfl, rfl⟩
+  | nak x => exact ⟨rfl, wf, rfl, rfl, rfl⟩
+  | prompt x => exact ⟨rfl, wf, rfl, rfl, rfl⟩
+  | keepAlive x => exact ⟨rfl, wf, rfl, rfl, rfl⟩
+  | eof x => exact ⟨rfl, wf, rfl, rfl, rfl⟩
+  | finished x => exact ⟨rfl, wf, rfl, rfl, rfl⟩
+
+/-- **the factory's generic decode returns an instance of exactly the packed kind, equal to the
     original**: for every valid PDU `p` of every kind in every header configuration,
-    `from_raw(pack(p) ‖ rest)` is `p` itself — same class, same header, same parameters — except
-    that a kind which refuses trailing octets answers a non-empty `rest` with `ValueError` -/
+    `from_raw(pack(p) ‖ rest)` is `norm p` — `p` itself, same class, same header, same parameters (for
+    Metadata: options as generic TLVs) — except that a kind which refuses trailing octets answers a
+    non-empty `rest` with `ValueError` -/
 theorem C12_dispatch (p : AnyPdu) (wf : WFPdu p) (rest : Bytes) :
     fromRaw (Spec.octets p ++ rest) =
-      if refusesTrailing p = true ∧ rest ≠ [] then .error .value else .ok (some p) := by
+      if refusesTrailing p = true ∧ rest ≠ [] then .error .value else .ok (some (norm p)) := by
   cases p with
-  | fileData x => simpa [refusesTrailing, Spec.octets] using (C12_dispatch_filedata x wf.1 wf.2 rest).1
-  | ack x => simpa [refusesTrailing, Spec.octets] using (C12_dispatch_ack x wf rest).1
-  | prompt x => simpa [refusesTrailing, Spec.octets] using (C12_dispatch_prompt x wf rest).1
-  | keepAlive x => simpa [refusesTrailing, Spec.octets] using (C12_dispatch_keepalive x wf rest).1
+  | fileData x => simpa [refusesTrailing, Spec.octets, norm] using (C12_dispatch_filedata x wf.1 wf.2 rest).1
+  | ack x => simpa [refusesTrailing, Spec.octets, norm] using (C12_dispatch_ack x wf rest).1
+  | prompt x => simpa [refusesTrailing, Spec.octets, norm] using (C12_dispatch_prompt x wf rest).1
+  | keepAlive x => simpa [refusesTrailing, Spec.octets, norm] using (C12_dispatch_keepalive x wf rest).1
+  | eof x => simpa [refusesTrailing, Spec.octets, norm] using (C12_dispatch_eof x wf rest).1
+  | finished x => simpa [refusesTrailing, Spec.octets, norm] using (C12_dispatch_finished x wf rest).1
+  | metadata x => simpa [refusesTrailing, Spec.octets, norm] using (C12_dispatch_metadata x wf rest).1
   | nak x =>
     have := (C12_dispatch_nak x wf rest).1
     by_cases hr : rest = []
-    · simpa [refusesTrailing, Spec.octets, hr] using this
-    · simpa [refusesTrailing, Spec.octets, hr] using this
+    · simpa [refusesTrailing, Spec.octets, norm, hr] using this
+    · simpa [refusesTrailing, Spec.octets, norm, hr] using this
 
 /-- the statement's form: pack, hand the octets to the factory, get back an object `p'` of the same
-    kind that is equal to the original (`==` both ways; in fact identical) and re-packs to the same
-    octets -/
+    kind that is equal to the original under `==` (both ways) and re-packs to the same octets; for
+    seven of the eight kinds it is the original itself -/
 theorem C12_dispatch_eq_repack (p : AnyPdu) (wf : WFPdu p) :
-    ∃ p', (p.pack >>= fromRaw) = .ok (some p') ∧ p'.kind = p.kind ∧ p' = p ∧
-      p.beq p' = true ∧ p'.beq p = true ∧ p'.pack = p.pack := by
-  refine ⟨p, ?_, rfl, rfl, C12_beq_refl p, C12_beq_refl p, rfl⟩
-  rw [C12_pack_exact p wf]
-  have := C12_dispatch p wf []
-  rw [List.append_nil] at this
-  rw [show (Except.ok (Spec.octets p) >>= fromRaw) = fromRaw (Spec.octets p) from rfl, this]
-  simp
+    ∃ p', (p.pack >>= fromRaw) = .ok (some p') ∧ p'.kind = p.kind ∧ p' = norm p ∧
+      (p.kind ≠ .metadata → p' = p) ∧ p'.pack = p.pack ∧
+      (EqOk p → p.beq p' = .ok true ∧ p'.beq p = .ok true) := by
+  obtain ⟨hk, _, _, hp, _⟩ := C12_norm p wf
+  refine ⟨norm p, ?_, hk, rfl, ?_, hp, C12_beq p wf⟩
+  · rw [C12_pack_exact p wf]
+    have := C12_dispatch p wf []
+    rw [List.append_nil] at this
+    rw [show (Except.ok (Spec.octets p) >>= fromRaw) = fromRaw (Spec.octets p) from rfl, this]
+    simp
+  · intro hm
+    cases p <;> first | rfl | exact absurd rfl hm
 
 /-- **trailing octets (C09 clause)**: a packed PDU followed by further octets is either decoded
     exactly as the PDU alone or refused with a documented error — never anything else -/
 theorem C12_dispatch_trailing (p : AnyPdu) (wf : WFPdu p) (rest : Bytes) :
-    fromRaw (Spec.octets p ++ rest) = .ok (some p) ∨
+    fromRaw (Spec.octets p ++ rest) = fromRaw (Spec.octets p) ∨
     ∃ e, fromRaw (Spec.octets p ++ rest) = .error e ∧ e.documented = true := by
-  rw [C12_dispatch p wf rest]
+  have h0 := C12_dispatch p wf []
+  rw [List.append_nil] at h0
+  simp only [ne_eq, not_true_eq_false, and_false, ↓reduceIte] at h0
+  rw [C12_dispatch p wf rest, h0]
   split
   · exact Or.inr ⟨_, rfl, rfl⟩
   · exact Or.inl rfl
@@ -261,6 +408,9 @@ theorem C12_inspectors (p : AnyPdu) (wf : WFPdu p) (rest : Bytes) :
     | nak x => obtain ⟨_, h1, h2, h3⟩ := C12_dispatch_nak x wf rest; exact ⟨h1, h2, h3⟩
     | prompt x => obtain ⟨_, h1, h2, h3⟩ := C12_dispatch_prompt x wf rest; exact ⟨h1, h2, h3⟩
     | keepAlive x => obtain ⟨_, h1, h2, h3⟩ := C12_dispatch_keepalive x wf rest; exact ⟨h1, h2, h3⟩
+    | eof x => obtain ⟨_, h1, h2, h3⟩ := C12_dispatch_eof x wf rest; exact ⟨h1, h2, h3⟩
+    | finished x => obtain ⟨_, h1, h2, h3⟩ := C12_dispatch_finished x wf rest; exact ⟨h1, h2, h3⟩
+    | metadata x => obtain ⟨_, h1, h2, h3⟩ := C12_dispatch_metadata x wf rest; exact ⟨h1, h2, h3⟩
   obtain ⟨k1, k2, k3⟩ := key
   refine ⟨k1, k2, k3, ?_, ?_⟩
   · -- the directive octet sits at header_len
@@ -289,6 +439,24 @@ theorem C12_inspectors (p : AnyPdu) (wf : WFPdu p) (rest : Bytes) :
         have hp2 := prelude_take _ _ _ hp h1dl rest
         rw [← hlen, List.take_length] at hp2
         exact ⟨((prelude_ok_iff _ _ _).mp hp2).1, wf.2.2.2.2.1⟩
+      | eof x =>
+        obtain ⟨hw, hty, _⟩ := wf.2.2.2.2.2
+        have hp : prelude (C06Var.Spec.eof x ++ rest) = _ :=
+          pdu_prelude x.fd (C06Var.Spec.eofParams x) rest hw (by have := wf.2.2.2.2.2.2.2.2.1; omega)
+            (C06Var.C06_eof_len x wf).2.1
+        exact ⟨((prelude_ok_iff _ _ _).mp hp).1, hty⟩
+      | finished x =>
+        obtain ⟨hw, hty, _⟩ := wf.2.2.2.2.2.2.2
+        have hp : prelude (C06Var.Spec.finished x ++ rest) = _ :=
+          pdu_prelude x.fd (C06Var.Spec.finParams x) rest hw (by have := wf.2.2.2.2.2.2.2.2.2.2.1; omega)
+            (C06Var.C06_finished_len x wf).2.1
+        exact ⟨((prelude_ok_iff _ _ _).mp hp).1, hty⟩
+      | metadata x =>
+        obtain ⟨hw, hty, _⟩ := wf.2.2.2.2.2
+        have hp : prelude (C06Var.Spec.metadata x ++ rest) = _ :=
+          pdu_prelude x.fd (C06Var.Spec.mdParams x) rest hw (by have := wf.2.2.2.2.2.2.2.2.1; omega)
+            (C06Var.C06_metadata_len x wf).2.1
+        exact ⟨((prelude_ok_iff _ _ _).mp hp).1, hty⟩
     obtain ⟨hu, ht⟩ := hdr
     rw [pduDirectiveType_of_header _ _ hu, if_neg (by omega)] at k3
     split at k3
@@ -364,16 +532,15 @@ theorem C12_no_directive_octet (d : Bytes) (h : PduHeader) (hu : PduHeader.unpac
 /-! ## truncated PDUs -/
 
 private theorem truncated_directive (d : Bytes) (fd : FileDirective) (q : Bytes)
-    (hp : prelude d = .ok (fd, q)) (ht : fd.header.pduType = 0) (kind : Kind) (f : Bytes → Py AnyPdu)
-    (hdk : decoderOf kind = some f)
+    (hp : prelude d = .ok (fd, q)) (ht : fd.header.pduType = 0) (kind : Kind)
     (hdisp : ∀ d', (directiveOf fd.code >>= fun dir => dispatch dir d') = decodeAs kind d')
-    (k : Nat) (hk : k < d.length) (hf : f (d.take k) = .error .value) :
+    (k : Nat) (hk : k < d.length) (hf : decoderOf kind (d.take k) = .error .value) :
     fromRaw (d.take k) = .error .value := by
   obtain ⟨hu, hi, _⟩ := (prelude_ok_iff d fd q).mp hp
   rw [fromRaw_take_directive d fd.header hu ht fd.code hi k (by omega)]
   split
   · rfl
-  · rw [hdisp]; exact decodeAs_err hdk hf
+  · rw [hdisp]; exact decodeAs_err hf
 
 /-- **every strict prefix of a packed PDU of any kind is refused by the factory with `ValueError`**
     (too short), in every header configuration — never decoded as something else -/
@@ -397,13 +564,13 @@ theorem C12_truncated (p : AnyPdu) (wf : WFPdu p) (k : Nat) (hk : k < (Spec.octe
       | k + 1 =>
         rw [List.take_succ_cons] at ht ⊢
         rw [fromRaw_cons, if_pos (by omega)]
-        exact decodeAs_err rfl (by rw [ht]; rfl)
+        exact decodeAs_err (show _ <$> _ = _ by rw [ht]; rfl)
   | ack x =>
     have hr := C06Fixed.C06_ack_roundtrip x wf []
     rw [List.append_nil] at hr
     obtain ⟨hp, _⟩ := Ack.unpack_inv _ x hr
     obtain ⟨_, hty, _, hcode, _⟩ := wf.2.2.2.2.2
-    refine truncated_directive _ _ _ hp hty .ack _ rfl ?_ k hk ?_
+    refine truncated_directive _ _ _ hp hty .ack ?_ k hk ?_
     · intro d'; rw [hcode]; exact (dispatch_table d').2.2.1
     · show AnyPdu.ack <$> Ack.Ack.unpack _ = _
       rw [C06Fixed.C06_ack_truncated x wf k hk]; rfl
@@ -412,7 +579,7 @@ theorem C12_truncated (p : AnyPdu) (wf : WFPdu p) (k : Nat) (hk : k < (Spec.octe
     rw [List.append_nil] at hr
     obtain ⟨hp, _⟩ := Prompt.unpack_inv _ x hr
     obtain ⟨_, hty, _, hcode, _⟩ := wf.2
-    refine truncated_directive _ _ _ hp hty .prompt _ rfl ?_ k hk ?_
+    refine truncated_directive _ _ _ hp hty .prompt ?_ k hk ?_
     · intro d'; rw [hcode]; exact (dispatch_table d').2.2.2.2.2.1
     · show AnyPdu.prompt <$> Prompt.Prompt.unpack _ = _
       rw [C06Fixed.C06_prompt_truncated x wf k hk]; rfl
@@ -421,7 +588,7 @@ theorem C12_truncated (p : AnyPdu) (wf : WFPdu p) (k : Nat) (hk : k < (Spec.octe
     rw [List.append_nil] at hr
     obtain ⟨hp, _⟩ := KeepAlive.unpack_inv _ x hr
     obtain ⟨_, hty, _, hcode, _⟩ := wf.2.2
-    refine truncated_directive _ _ _ hp hty .keepAlive _ rfl ?_ k hk ?_
+    refine truncated_directive _ _ _ hp hty .keepAlive ?_ k hk ?_
     · intro d'; rw [hcode]; exact (dispatch_table d').2.2.2.2.2.2.1
     · show AnyPdu.keepAlive <$> KeepAlive.KeepAlive.unpack _ = _
       rw [C06Fixed.C06_keepalive_truncated x wf k hk]; rfl
@@ -429,10 +596,37 @@ theorem C12_truncated (p : AnyPdu) (wf : WFPdu p) (k : Nat) (hk : k < (Spec.octe
     have hr := C06Fixed.C06_nak_roundtrip x wf
     obtain ⟨hp, _⟩ := Nak.unpack_inv _ x hr
     obtain ⟨_, hty, _, hcode, _⟩ := wf.2.2.2
-    refine truncated_directive _ _ _ hp hty .nak _ rfl ?_ k hk ?_
+    refine truncated_directive _ _ _ hp hty .nak ?_ k hk ?_
     · intro d'; rw [hcode]; exact (dispatch_table d').2.2.2.2.1
     · show AnyPdu.nak <$> Nak.Nak.unpack _ = _
       rw [C06Fixed.C06_nak_truncated x wf k hk]; rfl
+  | eof x =>
+    obtain ⟨hw, hty, _, hcode, _⟩ := wf.2.2.2.2.2
+    have hp : prelude (C06Var.Spec.eof x ++ []) = _ :=
+      pdu_prelude x.fd (C06Var.Spec.eofParams x) [] hw (by omega) (C06Var.C06_eof_len x wf).2.1
+    rw [List.append_nil] at hp
+    refine truncated_directive _ _ _ hp hty .eof ?_ k hk ?_
+    · intro d'; rw [hcode]; exact (dispatch_table d').1
+    · show AnyPdu.eof <$> Eof.Eof.unpack _ = _
+      rw [C06Var.C06_eof_truncated x wf k hk]; rfl
+  | finished x =>
+    obtain ⟨hw, hty, _, hcode, _⟩ := wf.2.2.2.2.2.2.2
+    have hp : prelude (C06Var.Spec.finished x ++ []) = _ :=
+      pdu_prelude x.fd (C06Var.Spec.finParams x) [] hw (by omega) (C06Var.C06_finished_len x wf).2.1
+    rw [List.append_nil] at hp
+    refine truncated_directive _ _ _ hp hty .finished ?_ k hk ?_
+    · intro d'; rw [hcode]; exact (dispatch_table d').2.1
+    · show AnyPdu.finished <$> Finished.Finished.unpack _ = _
+      rw [C06Var.C06_finished_truncated x wf k hk]; rfl
+  | metadata x =>
+    obtain ⟨hw, hty, _, hcode, _⟩ := wf.2.2.2.2.2
+    have hp : prelude (C06Var.Spec.metadata x ++ []) = _ :=
+      pdu_prelude x.fd (C06Var.Spec.mdParams x) [] hw (by omega) (C06Var.C06_metadata_len x wf).2.1
+    rw [List.append_nil] at hp
+    refine truncated_directive _ _ _ hp hty .metadata ?_ k hk ?_
+    · intro d'; rw [hcode]; exact (dispatch_table d').2.2.2.1
+    · show AnyPdu.metadata <$> Metadata.Metadata.unpack _ = _
+      rw [C06Var.C06_metadata_truncated x wf k hk]; rfl
 
 /-! ## soundness for any input -/
 
@@ -459,6 +653,9 @@ theorem C12_wf_canonical (p : AnyPdu) (wf : WFPdu p) : p.Canonical := by
   | ack x => trivial
   | nak x => trivial
   | keepAlive x => trivial
+  | eof x => exact wf.2.2.2.2.2.2.2.2.1
+  | finished x => trivial
+  | metadata x => trivial
 
 /-- **the (held kind or none) × (requested kind) table**: for an empty holder every one of the eight
     typed accessors raises `TypeError`; for a held PDU the accessor of its own kind succeeds and
@@ -484,14 +681,16 @@ theorem C12_holder_valid (p : AnyPdu) (wf : WFPdu p) (k : Kind) :
 
 /-- the same table behind `from_raw_to_holder`: pack, decode into a holder, ask for kind `k` -/
 theorem C12_holder_from_raw (p : AnyPdu) (wf : WFPdu p) (k : Kind) :
-    (p.pack >>= fromRawToHolder >>= Holder.castTo k) = if p.kind = k then .ok p else .error .type := by
+    (p.pack >>= fromRawToHolder >>= Holder.castTo k) = if p.kind = k then .ok (norm p) else .error .type := by
   rw [C12_pack_exact p wf]
   have := C12_dispatch p wf []
   rw [List.append_nil] at this
   simp only [ne_eq, not_true_eq_false, and_false, ↓reduceIte] at this
   show (fromRawToHolder (Spec.octets p) >>= Holder.castTo k) = _
   rw [fromRawToHolder, this]
-  exact castTo_canonical p (C12_wf_canonical p wf) k
+  obtain ⟨hk, hwf, _⟩ := C12_norm p wf
+  rw [← hk]
+  exact castTo_canonical (norm p) (C12_wf_canonical _ hwf) k
 
 /-- an accessor can only fail with `TypeError`, whatever the holder holds -/
 theorem C12_holder_errors (held : Holder) (k : Kind) (e : Err) (h : Holder.castTo k held = .error e) :
@@ -559,12 +758,16 @@ theorem C12_holder_views (p : AnyPdu) (wf : WFPdu p) :
     | nak x => exact (C06Fixed.C06_nak_len x wf).1.symm
     | prompt x => exact (C06Fixed.C06_prompt_len x wf).1.symm
     | keepAlive x => exact (C06Fixed.C06_keepalive_len x wf).1.symm
+    | eof x => exact (C06Var.C06_eof_len x wf).1.symm
+    | finished x => exact (C06Var.C06_finished_len x wf).1.symm
+    | metadata x => exact (C06Var.C06_metadata_len x wf).1.symm
   all_goals
     have hc := C12_wf_canonical p wf
     cases p <;>
       simp_all [Holder.pduType, Holder.isFileDirective, Holder.pduDirectiveType, AnyPdu.Canonical, AnyPdu.kind,
         AnyPdu.pduType, AnyPdu.directiveType, AnyPdu.view, Kind.code, FILE_DATA, FILE_DIRECTIVE, DIR_ACK, DIR_NAK,
-        DIR_PROMPT, DIR_KEEP_ALIVE, bind, Except.bind, pure, Except.pure, Functor.map, Except.map]
+        DIR_PROMPT, DIR_KEEP_ALIVE, DIR_EOF, DIR_FINISHED, DIR_METADATA, bind, Except.bind, pure, Except.pure,
+        Functor.map, Except.map]
 
 /-- the `pdu` / `base` setters replace the held object: afterwards the accessors answer for the new one -/
 theorem C12_holder_setter (h : Holder) (q : Option AnyPdu) (k : Kind) :
@@ -572,13 +775,13 @@ theorem C12_holder_setter (h : Holder) (q : Option AnyPdu) (k : Kind) :
 
 /-! ## documented errors only -/
 
-/-- the three inspectors fail, for any octet string whatever, only with `ValueError`; so does
-    `from_raw` with `ValueError` / `UnsupportedCfdpVersion` / `InvalidCrc` (stage 1: for directive
-    octets other than EOF, Finished, Metadata, whose decoders are not modelled yet); the typed
-    accessors fail only with the `TypeError` the statement names -/
+/-- the three inspectors fail, for any octet string whatever, only with `ValueError`; `from_raw`
+    only with `ValueError` / `UnsupportedCfdpVersion` / `InvalidCrc` / `TlvTypeMissmatch` (what the
+    eight decoders document); the typed accessors fail only with the `TypeError` the statement names
+    (`C12_holder_errors`) -/
 theorem C12_documented (d : Bytes) :
     Documented (pduType d) ∧ Documented (isFileDirective d) ∧ Documented (pduDirectiveType d) ∧
-    ((∀ dir, pduDirectiveType d = .ok dir → Modelled dir) → Documented (fromRaw d)) :=
+    Documented (fromRaw d) :=
   ⟨pduType_documented d, isFileDirective_documented d, pduDirectiveType_documented d, fromRaw_documented d⟩
 
 /-! ## non-vacuity -/
@@ -600,9 +803,20 @@ private def exKa : AnyPdu :=
 private def exNak : AnyPdu :=
   .nak ⟨⟨⟨0, 0, 51, ⟨⟨2, 0x0102⟩, ⟨2, 0x0304⟩, ⟨1, 9⟩, 0, 1, 1, 1, 0⟩⟩, 8⟩, 0x0102030405060708, 0xFFFFFFFFFFFFFFFF,
     [(0, 0), (0x1112131415161718, 0x2122232425262728)]⟩
-private def exHeld : List Holder := [none, some exFd, some exAck, some exNak, some exPrompt, some exKa]
+private def exEof : AnyPdu :=
+  .eof ⟨⟨⟨0, 0, 20, ⟨⟨2, 0x0102⟩, ⟨2, 0x0304⟩, ⟨1, 9⟩, 0, 1, 1, 0, 0⟩⟩, 4⟩, 5, [0xA1, 0xA2, 0xA3, 0xA4],
+    0x0102030405060708, some ⟨⟨6, [0x0A, 0x0B]⟩⟩⟩
+private def exFin : AnyPdu :=
+  .finished ⟨⟨⟨0, 0, 26, ⟨⟨1, 7⟩, ⟨1, 8⟩, ⟨2, 0x0102⟩, 1, 0, 1, 1, 0⟩⟩, 5⟩, 4, 1, 2,
+    [⟨0, 1, [0x61], [], ⟨[]⟩⟩, ⟨2, 33, [0xC3, 0xA4], [0x62], ⟨[9]⟩⟩], some ⟨⟨6, [1, 2, 3, 4]⟩⟩⟩
+private def exMd : AnyPdu :=
+  .metadata ⟨⟨⟨0, 0, 25, ⟨⟨1, 7⟩, ⟨1, 8⟩, ⟨1, 9⟩, 0, 1, 1, 0, 0⟩⟩, 7⟩, true, 3, 0x0102030405060708,
+    ⟨[0xC3, 0xA4, 0x2E]⟩, ⟨[0x62]⟩, some [.msgToUser ⟨⟨2, [0xAA]⟩⟩, .generic ⟨5, [1, 2]⟩]⟩
+private def exHeld : List Holder :=
+  [none, some exFd, some exEof, some exFin, some exAck, some exMd, some exNak, some exPrompt, some exKa]
 
-example : ∀ p ∈ [exFd, exAck, exPrompt, exKa, exNak], WFPdu p := by decide
+example : ∀ p ∈ [exFd, exEof, exFin, exAck, exMd, exPrompt, exKa, exNak], WFPdu p ∧ EqOk p := by decide
+example : norm exMd ≠ exMd ∧ (norm exMd).kind = .metadata := by decide
 -- the directive octet sits at offset 9, 24, 8 and 9 in these four configurations
 example : [exAck, exPrompt, exKa, exNak].map (fun p => (headerOf p).headerLen) = [9, 24, 8, 9] := by decide
 -- the accessor table on concrete objects, all (held or none) × (requested kind) pairs, evaluated
